@@ -289,6 +289,7 @@ func hunt(o Opts) {
 	var handed2 []*Case2
 	var handed3 []*Case3
 	var clamp3 *Case3
+	var handed5 []*Case5
 	report := func(c *Case, msg string) {
 		s := shrink(c)
 		execute(s)
@@ -306,6 +307,7 @@ func hunt(o Opts) {
 			Lag    *Case    `json:"lag_witness"`
 			Cases3 []*Case3 `json:"cases3"`
 			Clamp  *Case3   `json:"vclamp_witness"`
+			Cases5 []*Case5 `json:"cases5"`
 		}
 		if b, err := os.ReadFile(o.Replay); err == nil {
 			json.Unmarshal(b, &in)
@@ -323,6 +325,10 @@ func hunt(o Opts) {
 		}
 		handed2 = in.Cases2
 		handed3, clamp3 = in.Cases3, in.Clamp
+		handed5 = in.Cases5
+	}
+	if res["found"] == false {
+		hunt5(o, handed5, res)
 	}
 	if res["found"] == false {
 		huntHMM(o, handed2, res)
